@@ -2488,9 +2488,14 @@ def _difference_reported(ctx, f, cfg, is_supplied, is_declared) -> Optional[ast.
 
 def r8_supplied_keys_examined(ctx, rid):
     n = 0
-    for f in sorted(ctx.repo.all_functions(), key=lambda x: x.qual):
-        if f.module.rel != OPGRAPH_IR or f.cls is None or f.self_name is None:
+    from engine.inline import inlined
+    for f0 in sorted(ctx.repo.all_functions(), key=lambda x: x.qual):
+        if f0.module.rel != OPGRAPH_IR or f0.cls is None or f0.self_name is None:
             continue
+        # decide on the view with the private helpers spliced in (the pairing loop may have been extracted); report against f0
+        f = inlined(ctx, f0)
+        if not getattr(f, "inlined_helpers", None):
+            f = f0
         is_declared, is_supplied = _value_dict_roles(ctx, f)
         cfg = ctx.cfg(f)
         examined, declared_side, silent_skip, other = [], [], [], []
@@ -2544,23 +2549,23 @@ def r8_supplied_keys_examined(ctx, rid):
         label = "supplied value keys examined against the declared variables"
         diff = _difference_reported(ctx, f, cfg, is_supplied, is_declared) if not examined else None
         if diff is not None:
-            ctx.ok(rid, f, diff, "supplied keys that are not declared variables are reported by an explicit difference / subset test",
+            ctx.ok(rid, f0, diff, "supplied keys that are not declared variables are reported by an explicit difference / subset test",
                    {"test": norm(diff, 100)}, label=label)
         elif silent_skip and not examined:
             L, k, w = silent_skip[0]
-            ctx.violation(rid, f, L, f"{f.qualname} tests / fetches the supplied key `{k}` in the declared variables without raising or warning when it "
+            ctx.violation(rid, f0, L, f"{f.qualname} tests / fetches the supplied key `{k}` in the declared variables without raising or warning when it "
                                      f"is absent ({cfg.path_str([L] + w)}): a value addressed to a variable that does not exist is skipped silently",
                           {"witness": cfg.path_str([L] + w)}, label=label)
         elif declared_side and not examined:
             L, k, hits = declared_side[0]
-            ctx.violation(rid, f, L, f"{f.qualname} iterates over the DECLARED variables (`{norm(L.iter, 60)}`) and looks each one up in the supplied value "
+            ctx.violation(rid, f0, L, f"{f.qualname} iterates over the DECLARED variables (`{norm(L.iter, 60)}`) and looks each one up in the supplied value "
                                      f"dict (`{norm(hits[0], 60)}`): keys of the supplied dict that are not declared variables are never examined, so a "
                                      f"node-level value / parameter update addressed to a variable that does not exist is dropped without an "
                                      f"exception or warning (only iterating the supplied keys and indexing the declared table reports it)",
                           {"loop": norm(L, 100)}, label=label)
         elif examined:
             L, k = examined[0]
-            ctx.ok(rid, f, L, f"every supplied key `{k}` indexes the declared variable table (KeyError for an unknown variable) on every path of the "
+            ctx.ok(rid, f0, L, f"every supplied key `{k}` indexes the declared variable table (KeyError for an unknown variable) on every path of the "
                               f"iteration", {"loop": norm(L, 100)}, label=label)
         else:
             L = other[0][0]
